@@ -56,6 +56,13 @@ func witnessCases() map[string]Case {
 	mk("F-C06-PARENLIT", cmpN("==", col("s", "s"), strLit("it)")), []string{"when"}, "coalesce:false", false, wrow(1, gen.Int(1), gen.Int(1), gen.Str("it)"), gen.Str("q"), gen.Bool(true)))
 	mk("F-C06-NULLIF", call("null_if", "n", numLit("0"), col("a", "n")), []string{"select"}, "abs", false, wrow(1, gen.Int(0), gen.Int(1), gen.Str("x"), gen.Str("q"), gen.Bool(true)))
 	mk("F-C06-SCASENULL", &Node{Op: "scase", T: "n", E: true, K: []*Node{col("s", "s"), col("s", "s"), col("a", "n"), col("b", "n")}}, []string{"select"}, "abs", false, wrow(1, gen.Int(-2), gen.Float(-0.5), gen.Nil(), gen.Str("q"), gen.Bool(true)))
+	mk("F-C06-LOG2", call("log", "n", numLit("2"), numLit("8")), []string{"select"}, "abs", false, basic)
+	mk("F-C06-TRUNC1", call("trunc", "n", numLit("2.5")), []string{"select"}, "abs", false, basic)
+	mk("F-C06-MIXEDCASEFN", call("abs", "n", ari("-", col("a", "n"), numLit("10"))), []string{"select"}, "abs", false, basic)
+	if c := w["F-C06-MIXEDCASEFN"]; true {
+		c.Title = true
+		w["F-C06-MIXEDCASEFN"] = c
+	}
 	// ill-typed: the value for the f=true row depends on which row the process-wide program cache saw first
 	ill := Case{Mode: "ill", Ctxs: []string{"select"}, Wrap: "coalesce:false", Lower: true,
 		Expr: normalize(bin("and", "", "b", cmpN("==", col("f", "s"), call("concat", "s", col("s", "s"), col("s", "s"))),
